@@ -200,7 +200,7 @@ func c12Registrars(c *Ctx) {
 
 func checkRegistrar(c *Ctx, fn *ssa.Function, sp registrarSpec) {
 	name, pos := c.fn(fn), c.P.FuncPos(fn)
-	ev := NewEvaluator(c.P, EvalConfig{MaxVisits: 4, InlineClosures: true})
+	ev := NewEvaluator(c.P, EvalConfig{MaxVisits: visits(4), InlineClosures: true})
 	paths := ev.Run(fn)
 	if ev.Err != nil || len(paths) == 0 {
 		c.Undecided(name, pos, fmt.Sprintf("evaluation failed: %v", ev.Err), "")
@@ -390,7 +390,7 @@ func c12AnyOf(c *Ctx) {
 		return
 	}
 	name, pos := c.fn(fn), c.P.FuncPos(fn)
-	ev := NewEvaluator(c.P, EvalConfig{MaxVisits: 4, DecideReturns: true})
+	ev := NewEvaluator(c.P, EvalConfig{MaxVisits: visits(4), DecideReturns: true})
 	paths := ev.Run(fn)
 	if ev.Err != nil || len(paths) == 0 {
 		c.Undecided(name, pos, fmt.Sprintf("evaluation failed: %v", ev.Err), "")
@@ -467,7 +467,7 @@ func c12Unwrap(c *Ctx) {
 		return
 	}
 	name, pos := c.fn(fn), c.P.FuncPos(fn)
-	ev := NewEvaluator(c.P, EvalConfig{MaxVisits: 3, DecideReturns: true})
+	ev := NewEvaluator(c.P, EvalConfig{MaxVisits: visits(3), DecideReturns: true})
 	paths := ev.Run(fn)
 	if ev.Err != nil || len(paths) == 0 {
 		c.Undecided(name, pos, fmt.Sprintf("evaluation failed: %v", ev.Err), "")
